@@ -457,7 +457,7 @@ def drivers(tier):
     if tier == 'quick':
         return {'defer': (DeferDriver(max_queue=4, max_faults=1),
                           dict(max_states=200000, time_budget=300))}
-    return {'defer': (DeferDriver(max_queue=5, max_faults=2),
+    return {'defer': (DeferDriver(max_queue=4, max_faults=2),
                       dict(max_states=2000000, time_budget=3000))}
 
 
